@@ -103,6 +103,9 @@ def run(env, rep):
     # every fourth script again with a resource that keeps its renderings and hands the same object to every observer
     # it notifies of a state (the model works on values; the implementation has to make them so)
     scripts += [dict(s, cached_render=True, tag="cached:" + s.get("tag", "")) for i, s in enumerate(scripts) if i % 4 == 3]
+    # ... and every eighth with notifications rendered as messages that cannot be deep-copied
+    scripts += [dict(s, uncopyable_render=True, tag="uncopyable:" + s.get("tag", ""))
+                for i, s in enumerate(scripts) if i % 8 == 5 and not s.get("cached_render")]
     results = run_scripts(env, scripts)
     lines, cases, impl, fails = [], [], [], []
     for res in results:
